@@ -691,6 +691,7 @@ def run(tier="quick", seed=0):
             if col.out_of_time():
                 break
         # sampling above the bounds
+        t_exh = time.time()
         i = 0
         limit = 55 if quick else 420
         while not col.out_of_time():
@@ -703,6 +704,8 @@ def run(tier="quick", seed=0):
             bc = BamCase(spec, tmp)
             standard(col, bc, "boundary" if (i % 3 or quick) else "all", "few" if i % 4 else "full", eager=(i % 2 == 0), quick=quick)
             i += 1
+        col.bounds["random_files_run"] = i
+        col.bounds["exhaustive_part_wall_s"] = round(t_exh - col.t0, 1)
     return col.result()
 
 
